@@ -1320,6 +1320,10 @@ def run_spox(op: Op, call, value_prop: bool = False, vs=None, keep_outputs: bool
             res["types"] = [from_spox_type(getattr(v, "type", None)) for v in outs]
             if keep_outputs:
                 res["outputs"] = outs
+            try:  # (internal) which output Vars got a propagated value
+                res["has_value"] = [getattr(v, "_value") is not None for v in outs]
+            except Exception as e:  # noqa: BLE001
+                res["obs_errors"].append(f"output values: {type(e).__name__}: {e}"[:200])
         try:
             cls = node_class(op)
             if call.get("sub"):
@@ -1374,6 +1378,14 @@ def model_request(op: Op, call, sp: dict) -> Optional[dict]:
                 req["infer"] = inf
         else:
             req["infer"] = "reject"
+    if sp.get("has_value") is not None and cls is not None:
+        keys = []
+        for f in dataclasses.fields(cls.Outputs):
+            if cls.Outputs._get_field_type(f).value == 2:
+                keys += [f"{f.name}_{i}" for i in range(call.get("out_count") or 0)]
+            else:
+                keys.append(f.name)
+        req["values"] = [[k, "value"] for k, hv in zip(keys, sp["has_value"]) if hv]
     return req
 
 
